@@ -1,0 +1,15 @@
+package mobius
+
+import "os"
+
+// writeFileAtomic writes data to a temporary file next to path and renames it into place, so that a crash leaves
+// either the previous file or the complete new one, never a truncated file.
+func writeFileAtomic(path string, data []byte, perm os.FileMode) error {
+	tempFilePath := path + ".tmp"
+
+	if err := os.WriteFile(tempFilePath, data, perm); err != nil {
+		return err
+	}
+
+	return os.Rename(tempFilePath, path)
+}
